@@ -580,7 +580,8 @@ SINGLE_KINDS = ["conv", "dw", "fc", "maxpool", "avgpool", "add", "sub", "mul", "
                 "conv_dil", "dw_dil", "avgpool_s4", "split", "mul_max", "relu_chain", "slice_conv",
                 "mean_axis", "pool_big", "conv_stride_asym", "squeeze_expand", "ew16",
                 "concat_hw", "pad_conv", "fc_batch", "tconv_var", "resize_x", "ew_rank", "conv_big_kernel", "pool_then_ew",
-                "splitv", "slice_op", "unpack_pack", "sqdiff", "argmax", "quant_chain"]
+                "splitv", "slice_op", "unpack_pack", "sqdiff", "argmax", "quant_chain",
+                "mean_big", "pad_pool", "slice_masks", "dw_mult", "conv_1d"]
 
 
 def fam_single_op(rng, kind=None):
@@ -876,6 +877,53 @@ def fam_single_op(rng, kind=None):
         d2 = rng.choice(["int8", "uint8"])
         y = net.tensor(list(t_.shape), d2, _rs(rng, 0.01, 0.2), _zp(rng, d2))
         net.op("QUANTIZE", [t_], [y], {})
+    elif kind == "mean_big":
+        # MEAN over so many elements that Vela splits it into several depthwise convolutions and adds the partial sums
+        hh, ww = rng.choice([(70, 64), (130, 40), (66, 66), (100, 50), (1, 5000), (80, 60)])
+        x = _inp(net, rng, [1, hh, ww, rng.choice([1, 2, 4])], dt)
+        y = mean(net, rng, x, (1, 2), keep=rng.random() < 0.5)
+    elif kind == "pad_pool":
+        # PAD in front of pooling operators (average pools fold the padding into explicit padding with their own divisor rule)
+        hh, ww, cc = rng.randrange(3, 10), rng.randrange(3, 10), rng.choice([4, 8, 16])
+        x = _inp(net, rng, [1, hh, ww, cc], dt)
+        pt, pb, pl, pr = [rng.choice([0, 1, 1, 2]) for _ in range(4)]
+        p_ = pad(net, rng, x, [[0, 0], [pt, pb], [pl, pr], [0, rng.choice([0, 0, 4])]])
+        kk = rng.choice([(3, 3), (2, 2), (3, 2)])
+        if p_.shape[1] < kk[0] or p_.shape[2] < kk[1]:
+            return None
+        y = pool(net, rng, p_, rng.choice(["MAX_POOL_2D", "AVERAGE_POOL_2D"]), kk, rng.choice([(1, 1), (2, 2)]), "VALID")
+    elif kind == "slice_masks":
+        # STRIDED_SLICE with begin / end masks and negative indices (unit strides), in front of an NPU operator
+        shp = [1, rng.randrange(4, 10), rng.randrange(4, 10), rng.choice([4, 8, 16])]
+        x = _inp(net, rng, shp, dt)
+        b0 = [0, rng.randrange(0, 3), rng.randrange(0, 3), 0]
+        e0 = [1, shp[1] - rng.randrange(0, 2), shp[2] - rng.randrange(0, 2), shp[3]]
+        bm = rng.choice([0, 2, 4, 6, 15])
+        em = rng.choice([0, 2, 4, 6, 15])
+        eff_b = [0 if (bm >> i) & 1 else b0[i] for i in range(4)]
+        eff_e = [shp[i] if (em >> i) & 1 else e0[i] for i in range(4)]
+        e_t = [(e0[i] - shp[i]) if (i in (1, 2) and rng.random() < 0.3 and e0[i] < shp[i]) else e0[i] for i in range(4)]   # negative index
+        out_shape = [eff_e[i] - eff_b[i] for i in range(4)]
+        bt = net.tensor([4], "int32", None, None, b0, name="ss_begin")
+        et = net.tensor([4], "int32", None, None, e_t, name="ss_end")
+        st_ = net.tensor([4], "int32", None, None, [1, 1, 1, 1], name="ss_strides")
+        t_ = net.tensor(out_shape, dt, x.scale, x.zp)
+        net.op("STRIDED_SLICE", [x, bt, et, st_], [t_], dict(BeginMask=bm, EndMask=em, EllipsisMask=0, NewAxisMask=0, ShrinkAxisMask=0))
+        y = conv2d(net, rng, t_, 4, (3, 3), (1, 1), (1, 1), "SAME") if rng.random() < 0.6 else unary(net, rng, "RELU", t_)
+    elif kind == "dw_mult":
+        x = _inp(net, rng, [1, rng.randrange(3, 10), rng.randrange(3, 10), 1], dt)
+        y = depthwise(net, rng, x, (rng.choice([1, 3]),) * 2, (1, 1), (1, 1), rng.choice(["SAME", "VALID"]), mult=rng.choice([2, 4, 8, 16]))
+    elif kind == "conv_1d":
+        # one row / one column feature maps with 1-D kernels (the Conv1D accumulator layout)
+        if rng.random() < 0.5:
+            x = _inp(net, rng, [1, 1, rng.randrange(4, 40), rng.choice([4, 8, 16])], dt)
+            kk, st_ = (1, rng.choice([1, 3, 5])), (1, rng.choice([1, 2]))
+        else:
+            x = _inp(net, rng, [1, rng.randrange(4, 40), 1, rng.choice([4, 8, 16])], dt)
+            kk, st_ = (rng.choice([1, 3, 5]), 1), (rng.choice([1, 2]), 1)
+        y = conv2d(net, rng, x, rng.choice([4, 8, 32]), kk, st_, (1, 1), rng.choice(["SAME", "VALID"]), rng.choice(["NONE", "RELU"]))
+        if rng.random() < 0.4:
+            y = conv2d(net, rng, y, 8, kk, (1, 1), (1, 1), "SAME", "NONE")
     elif kind in ("softmax",):
         x = _inp(net, rng, [1, rng.choice([2, 10, 64, 100])] if rng.random() < 0.6 else [1, h, w, c], dt)
         y = unary(net, rng, "SOFTMAX", x, dict(Beta=1.0))
@@ -1060,6 +1108,91 @@ def fam_branchy(rng):
         nodes.append(t)
     outs = [n for n in nodes[1:] if not any(any(n is i for i in op["inputs"]) for op in net.ops)] or [nodes[-1]]
     net.output(*outs[:4])
+    return net
+
+
+def fam_ew_chain(rng):
+    """a chain of exactly implemented elementwise operators with changing quantisation, constants, scalars, broadcasts,
+    both operand orders and fused clamps (in-place reuse, operand scaling modes, reversed operands)"""
+    net = Net("ew_chain")
+    dt = rng.choice(["int8", "int8", "uint8", "int16"])
+    h, w, c = rng.randrange(1, 9), rng.randrange(1, 9), rng.choice([1, 4, 8, 16])
+    sc16 = lambda: _rs(rng, 0.0001, 0.002)
+    x = net.input([1, h, w, c], dt, sc16() if dt == "int16" else _rs(rng, 0.01, 0.2), 0 if dt == "int16" else _zp(rng, dt), name="input0")
+    t = x
+    for _ in range(rng.randrange(2, 6)):
+        kd = rng.choice(["ADD", "SUB", "MUL", "ADD", "MINIMUM", "MAXIMUM"])
+        bk = rng.choice(["const_c", "scalar", "self", "input", "const_full"])
+        if bk == "const_c":
+            b = net.tensor([1, 1, 1, c], dt, sc16() if dt == "int16" else _rs(rng), 0 if dt == "int16" else _zp(rng, dt), _wdata(rng, [1, 1, 1, c], dt))
+        elif bk == "scalar":
+            b = net.tensor([], dt, sc16() if dt == "int16" else _rs(rng), 0 if dt == "int16" else _zp(rng, dt), _wdata(rng, [], dt))
+        elif bk == "self":
+            b = t
+        elif bk == "input":
+            b = x
+        else:
+            b = net.tensor([1, h, w, c], dt, sc16() if dt == "int16" else _rs(rng), 0 if dt == "int16" else _zp(rng, dt), _wdata(rng, [1, h, w, c], dt))
+        if kd in ("MINIMUM", "MAXIMUM"):
+            if b is not t and b is not x:
+                b.scale, b.zp = t.scale, t.zp
+            elif (b.scale, b.zp) != (t.scale, t.zp):
+                kd = "ADD"
+        a_, b_ = (t, b) if rng.random() < 0.6 else (b, t)
+        y = elementwise(net, rng, kd, a_, b_, rng.choice(["NONE", "NONE", "RELU"]) if kd in ("ADD", "SUB", "MUL") else "NONE", out_shape=[1, h, w, c])
+        if dt == "int16":
+            y.scale, y.zp = sc16() * 4, 0
+        if kd in ("MINIMUM", "MAXIMUM"):
+            y.scale, y.zp = t.scale, t.zp
+        t = y
+    net.output(t)
+    return net
+
+
+def fam_concat_split(rng):
+    """convolutions whose outputs are concatenated (depth, height or width) and / or whose input is split again: writes at
+    offsets into a shared tensor, reads at offsets out of one; kernel operators with padding on both sides"""
+    net = Net("concat_split")
+    dt = rng.choice(["int8", "int8", "uint8"])
+    h, w, c = rng.randrange(3, 10), rng.randrange(3, 10), rng.choice([4, 8])
+    x = _inp(net, rng, [1, h, w, c], dt)
+    axis = rng.choice([3, 3, 1, 2])
+    parts = []
+    for _ in range(rng.choice([2, 2, 3])):
+        ch = rng.choice(["conv", "conv", "pool", "id"])
+        if ch == "conv":
+            p_ = conv2d(net, rng, x, rng.choice([4, 8, 16]) if axis == 3 else 8, (rng.choice([1, 3]),) * 2, (1, 1), (1, 1), "SAME", rng.choice(["NONE", "RELU"]))
+        elif ch == "pool":
+            p_ = pool(net, rng, x, "MAX_POOL_2D", (3, 3), (1, 1), "SAME")
+        else:
+            p_ = x
+        parts.append(p_)
+    if axis != 3:
+        parts = [p_ if p_.shape[3] == parts[0].shape[3] else conv2d(net, rng, p_, parts[0].shape[3], (1, 1)) for p_ in parts]
+    for p_ in parts[1:]:
+        if p_ is not x and parts[0] is not x:
+            p_.scale, p_.zp = parts[0].scale, parts[0].zp
+    if any(p_ is x for p_ in parts):
+        for p_ in parts:
+            if p_ is not x:
+                p_.scale, p_.zp = x.scale, x.zp
+    cat = concat(net, rng, parts, axis)
+    mode = rng.choice(["conv", "split", "pool", "out"])
+    if mode == "conv":
+        y = conv2d(net, rng, cat, 8, (3, 3), (1, 1), (1, 1), "SAME", "NONE")
+        net.output(y)
+    elif mode == "pool":
+        net.output(pool(net, rng, cat, "MAX_POOL_2D", (2, 2), (1, 1), "SAME"))
+    elif mode == "split" and cat.shape[axis] % 2 == 0:
+        ax = net.tensor([], "int32", None, None, [axis], name="split_axis")
+        ps = list(cat.shape)
+        ps[axis] //= 2
+        halves = [net.tensor(list(ps), dt, cat.scale, cat.zp) for _ in range(2)]
+        net.op("SPLIT", [ax, cat], halves, dict(NumSplits=2))
+        outs_ = [conv2d(net, rng, hv, 4, (3, 3), (1, 1), (1, 1), "SAME") if rng.random() < 0.6 else unary(net, rng, "RELU", hv) for hv in halves]
+        net.output(*outs_)
+    else:
+        net.output(cat)
     return net
 
 
@@ -1834,7 +1967,7 @@ def fam_multi_subgraph(rng, kind=None):
 
 FAMILIES = {
     "conv_chain": fam_conv_chain, "conv_chain_big": lambda rng: fam_conv_chain(rng, big=True), "single": fam_single_op,
-    "diamond": fam_diamond, "mixed_cpu": fam_mixed_cpu, "unsupported": fam_unsupported, "lut_heavy": fam_lut_heavy, "lut_mixed": fam_lut_mixed, "siamese": fam_siamese, "multi_input": fam_multi_input, "deep_chain": fam_deep_chain, "pow2_rescale": fam_pow2_rescale, "narrowing_chain": fam_narrowing_chain, "one_channel_tail": fam_one_channel_tail, "memcpy_reshape": fam_memcpy_reshape, "branchy": fam_branchy, "mixed_exact": fam_mixed_exact, "weights_heavy": fam_weights_heavy, "ew_dag": fam_ew_dag, "multi_custom": fam_multi_custom,
+    "diamond": fam_diamond, "mixed_cpu": fam_mixed_cpu, "unsupported": fam_unsupported, "lut_heavy": fam_lut_heavy, "lut_mixed": fam_lut_mixed, "siamese": fam_siamese, "multi_input": fam_multi_input, "deep_chain": fam_deep_chain, "pow2_rescale": fam_pow2_rescale, "narrowing_chain": fam_narrowing_chain, "one_channel_tail": fam_one_channel_tail, "memcpy_reshape": fam_memcpy_reshape, "branchy": fam_branchy, "ew_chain": fam_ew_chain, "concat_split": fam_concat_split, "mixed_exact": fam_mixed_exact, "weights_heavy": fam_weights_heavy, "ew_dag": fam_ew_dag, "multi_custom": fam_multi_custom,
 }
 FAMILIES["multi_subgraph"] = fam_multi_subgraph
 
